@@ -13,7 +13,7 @@ type case =
   | RdbSweep of string
 
 let id = "C11"
-let rule = "random byte strings x random chunkings through the three digests; DUMP payloads of random type/value; payloads with every version \
+let rule = "random byte strings (lengths around 8, 16, 64, 256, 512, 1024, 2048, 4096, 8192 and in between) fed whole, in random pieces or in pieces cut at multiples of 8 / 64 / 512 through the three digests; DUMP payloads of random type/value; payloads with every version \
 0..12, 255..258, 65535 and a correct CRC; for each generated payload / RDB image ALL single-byte substitutions (every position x 255 values) and \
 all trailer truncations (RDB images read whole or through sources delivering at most 1, 3, 5, 7, 16 or 4096 bytes per Read), plus whole-trailer damage of RDB images (zeroed, all ones, another file's checksum, reversed; with a flipped content bit) (RDB image sweeps: content bytes < 0x40 and replacement values 0x80/0x81/0xc3 skipped, because they make the parser allocate GiB-sized buffers); non-trivial = non-empty data; distinct by wire line"
 
@@ -48,9 +48,13 @@ let gen st tier =
   let thorough = tier = "thorough" in
   let k = if thorough then 20 else 1 in
   let digests = List.init (400 * k) (fun _ ->
-    let len = rnd_pick st [ 0; 1; 2; 7; 8; 9; 63; 64; 100; 255; 256; 1000; 5000 ] in
+    let len = rnd_pick st [ 0; 1; 2; 7; 8; 9; 15; 16; 17; 63; 64; 65; 100; 255; 256; 257; 511; 512; 513; 1000; 1023; 1024; 1025; 1536; 2048; 4096; 4097; 5000; 8192 ] in
     let data = rnd_string st len in
-    let chunks = List.init (rnd_int st 6) (fun _ -> rnd_int st (len + 2)) in
+    (* chunkings: one Write of everything, random cuts, or cuts at multiples of 8 / 64 / 512 (block-wise and unrolled update loops) *)
+    let chunks = match rnd_int st 4 with
+      | 0 -> []
+      | 1 -> let b = rnd_pick st [ 8; 64; 512 ] in List.init (rnd_int st 5) (fun _ -> b * rnd_int st (len / b + 2))
+      | _ -> List.init (rnd_int st 6) (fun _ -> rnd_int st (len + 2)) in
     Digest (data, chunks)) in
   let dumps = List.init (300 * k) (fun _ -> Dump (rnd_int st 16, rnd_string st (rnd_pick st [ 0; 1; 5; 20; 100; 600 ]))) in
   let chks = List.concat_map (fun v -> List.init (3 * k) (fun _ -> Chk (rnd_string st (1 + rnd_int st 30), v))) versions in
